@@ -355,6 +355,8 @@ NOPS = {"PUSH_NULL": "NPushNull", "PRECALL": "NPrecall", "CACHE": "NCache"}
 
 def coq_insn(i):
     op = i.opname
+    if op == "LOAD_GLOBAL" and PY >= (3, 11) and i.arg & 1:
+        return "ILoad KGlobalNull %s" % cstr(str(i.argval))
     if op in LOADS:
         return "ILoad %s %s" % (LOADS[op], cstr(str(i.argval)))
     if op in STORES:
@@ -427,6 +429,16 @@ def exc_table(code):
     return {e.start: e.target for e in dis._parse_exception_table(code)}
 
 
+class _Rec(list):
+    """records the highest index the implementation read"""
+    hi = -1
+
+    def __getitem__(self, i):
+        if isinstance(i, int) and i > self.hi:
+            self.hi = i
+        return list.__getitem__(self, i)
+
+
 def sites_of(code, ll):
     """[(j, is_async, k, insns, obs_describe, awb_context|None)] for one code object"""
     raw = code.co_code
@@ -443,13 +455,15 @@ def sites_of(code, ll):
     for j, ins in enumerate(insns):
         if ins.opname in ("BEFORE_WITH", "BEFORE_ASYNC_WITH", "SETUP_WITH", "SETUP_ASYNC_WITH"):
             k = store_start(insns, j)
-            obs = ll.describe_assignment_target(insns, k)
+            rec = _Rec(insns)
+            obs = ll.describe_assignment_target(rec, k)
             if PY >= (3, 11):
                 handler = table.get(insns[k].offset)
             else:
                 handler = ins.argval
             ctx = awb.get(handler) if handler is not None else None
-            out.append(dict(j=j, k=k, is_async="ASYNC" in ins.opname, insns=insns, obs=obs, ctx=ctx))
+            out.append(dict(j=j, k=k, is_async="ASYNC" in ins.opname, insns=insns, obs=obs, ctx=ctx,
+                            consumed=max(0, rec.hi - k + 1)))
     return out
 
 
@@ -462,14 +476,50 @@ def walk_codes(code):
 
 
 def with_index(tree):
-    """{position of context_expr: (With node, item index)}"""
+    """{position of context_expr: (With node, item index, innermost enclosing class name|None)}"""
     idx = {}
-    for node in ast.walk(tree):
+
+    def walk(node, cls):
+        if isinstance(node, ast.ClassDef):
+            cls = node.name
         if isinstance(node, (ast.With, ast.AsyncWith)):
             for n, item in enumerate(node.items):
                 e = item.context_expr
-                idx[(e.lineno, e.col_offset, e.end_lineno, e.end_col_offset)] = (node, n)
+                idx[(e.lineno, e.col_offset, e.end_lineno, e.end_col_offset)] = (node, n, cls)
+        for ch in ast.iter_child_nodes(node):
+            walk(ch, cls)
+
+    import sys as _s
+    lim = _s.getrecursionlimit()
+    _s.setrecursionlimit(max(lim, 10000))
+    try:
+        walk(tree, None)
+    finally:
+        _s.setrecursionlimit(lim)
     return idx
+
+
+def mangle(name, cls):
+    """private-name mangling done by the compiler inside a class body"""
+    if cls is None or not name.startswith("__") or name.endswith("__") or "." in name:
+        return name
+    c = cls.lstrip("_")
+    if not c:
+        return name
+    return "_" + c + name
+
+
+class _Mangle(ast.NodeTransformer):
+    def __init__(self, cls):
+        self.cls = cls
+
+    def visit_Name(self, node):
+        return ast.copy_location(ast.Name(id=mangle(node.id, self.cls), ctx=node.ctx), node)
+
+    def visit_Attribute(self, node):
+        self.generic_visit(node)
+        node.attr = mangle(node.attr, self.cls)
+        return node
 
 
 def site_item(site, index):
@@ -514,13 +564,16 @@ def as_target_ast(text):
     return ast.parse("with _ as %s: pass" % text).body[0].items[0].optional_vars
 
 
-def same_target(varname, target_node):
+def same_target(varname, target_node, cls=None):
     try:
         got = as_target_ast(varname)
     except SyntaxError:
         return False
     import copy
-    return norm_dump(got) == norm_dump(copy.deepcopy(target_node))
+    want = copy.deepcopy(target_node)
+    if cls is not None:
+        want = _Mangle(cls).visit(want)
+    return norm_dump(got) == norm_dump(want)
 
 
 # ------------------------------------------------------------------ ast -> tree (stdlib targets)
@@ -536,13 +589,16 @@ def kind_of(name, code):
     return "name"
 
 
+_CLS = [None]
+
+
 def tree_e(n, code):
     if isinstance(n, ast.Name):
-        return ["name", kind_of(n.id, code), n.id]
+        return ["name", kind_of(mangle(n.id, _CLS[0]), code), mangle(n.id, _CLS[0])]
     if isinstance(n, ast.Constant) and not isinstance(n.value, (tuple, frozenset)) and n.value is not Ellipsis:
         return ["const_r", repr(n.value)]
     if isinstance(n, ast.Attribute):
-        return ["attr", tree_e(n.value, code), n.attr]
+        return ["attr", tree_e(n.value, code), mangle(n.attr, _CLS[0])]
     if isinstance(n, ast.Subscript):
         if isinstance(n.slice, ast.Slice):
             if n.slice.step is not None:
@@ -551,7 +607,7 @@ def tree_e(n, code):
         return ["sub", tree_e(n.value, code), tree_e(n.slice, code)]
     if isinstance(n, ast.Call) and not n.keywords and not any(isinstance(a, ast.Starred) for a in n.args):
         if isinstance(n.func, ast.Attribute):
-            return ["mcall", tree_e(n.func.value, code), n.func.attr, [tree_e(a, code) for a in n.args]]
+            return ["mcall", tree_e(n.func.value, code), mangle(n.func.attr, _CLS[0]), [tree_e(a, code) for a in n.args]]
         return ["call", tree_e(n.func, code), [tree_e(a, code) for a in n.args]]
     raise NoTree()
 
@@ -562,9 +618,9 @@ def tree_b(n, code):
 
 def tree_t(n, code):
     if isinstance(n, ast.Name):
-        return ["tname", kind_of(n.id, code), n.id]
+        return ["tname", kind_of(mangle(n.id, _CLS[0]), code), mangle(n.id, _CLS[0])]
     if isinstance(n, ast.Attribute):
-        return ["tattr", tree_e(n.value, code), n.attr]
+        return ["tattr", tree_e(n.value, code), mangle(n.attr, _CLS[0])]
     if isinstance(n, ast.Subscript):
         if isinstance(n.slice, ast.Slice):
             if n.slice.step is not None:
@@ -779,6 +835,73 @@ def expected_items(spec, tree):
                     i = e.args[0].value
                 out[i] = (node.lineno, isinstance(node, ast.AsyncWith), item.optional_vars)
     return out
+
+
+# ------------------------------------------------------------------ site observations
+_STASH = {}
+
+
+def _ll():
+    from stackscope import lowlevel as ll
+    return ll
+
+
+def site_obs(site, node_item, code, tree_hint=None):
+    ins = site["insns"]
+    k = site["k"]
+    window = []
+    for i in ins[k:k + min(600, max(WINDOW, site.get("consumed", 0) + 4))]:
+        if i.opname == "LOAD_CONST" and len(i.argrepr) > 300:
+            break  # a huge constant (never part of a target in practice); the window ends before it
+        window.append(coq_insn(i))
+    ctx = site["ctx"]
+    obs = {"code": window, "obs": site["obs"], "awb": ctx.varname if ctx is not None else "<missing>",
+           "start_line": ctx.start_line if ctx is not None else None, "awb_async": bool(ctx.is_async) if ctx is not None else None,
+           "is_async": site["is_async"], "matched": node_item is not None, "ver": "V312" if PY >= (3, 12) else "V311"}
+    if node_item is not None:
+        node, n, cls = node_item
+        _CLS[0] = cls
+        t = node.items[n].optional_vars
+        obs["with_line"] = node.lineno
+        obs["with_async"] = isinstance(node, ast.AsyncWith)
+        obs["target_src"] = None if t is None else ast.unparse(t)
+        obs["ast_ok"] = None if (t is None or site["obs"] is None) else same_target(site["obs"], t, cls)
+        if tree_hint is not None:
+            obs["tree"] = tree_hint[0]
+        else:
+            try:
+                obs["tree"] = None if t is None else tree_t(t, code)
+                obs["has_tree"] = True
+            except NoTree:
+                obs["has_tree"] = False
+    return obs
+
+
+def gen_sites(spec):
+    key = json.dumps(spec, sort_keys=True)
+    if key in _STASH:
+        return _STASH[key]
+    ll = _ll()
+    src = build_source(spec)
+    tree = ast.parse(src)
+    index = with_index(tree)
+    code = compile(src, "<c08prog>", "exec")
+    gcode = [c for c in code.co_consts if hasattr(c, "co_code") and c.co_name == "g"][0]
+    by_id = {it["id"]: it for lv in spec["levels"] for it in lv["items"]}
+    res = []
+    for site in sites_of(gcode, ll):
+        ni = site_item(site, index)
+        hint = None
+        if ni is not None:
+            e = ni[0].items[ni[1]].context_expr
+            i = int(e.id[1:]) if isinstance(e, ast.Name) else e.args[0].value
+            hint = [by_id[i]["t"]] if i in by_id else [["tname", "fast", "sib"]]
+        o = site_obs(site, ni, gcode, hint)
+        o["has_tree"] = hint is not None
+        res.append(o)
+    _STASH[key] = res
+    return res
+
 
 
 # suspected finding (reported to the coordinator; not in known_findings.json): a constant whose
